@@ -64,6 +64,19 @@ def diskDiff (names : List Name) (m i : Disk) : String :=
   let d := names.foldl (fun acc n => acc ++ (let x := NDB.diffDetail (m.storeDB n) (i.storeDB n); if x = "" then "" else s!" [{nameStr n}:{x}]")) ""
   s!"{d} cinfos-equal={sameSet m.cinfos i.cinfos} latest-equal={m.latest == i.latest}"
 
+/-- Executable form of `Tree.WF` (fields fit their machine types, children strictly lower). -/
+def wfb : Tree → Bool
+  | .leaf k v ver => decide (Amino.isInt64 ver) && decide (k.length < 2 ^ 63) && decide (v.length < 2 ^ 63)
+  | .inner k h s ver l r => decide (Amino.isInt8 h) && decide (Amino.isInt64 s) && decide (Amino.isInt64 ver) && decide (k.length < 2 ^ 63) &&
+      decide (0 ≤ l.height) && decide (l.height < h) && decide (0 ≤ r.height) && decide (r.height < h) && wfb l && wfb r
+
+/-- Run-time monitor of the hypothesis `StepOK` the theorems of C04/C07/C08 make about consecutive working trees:
+nodes kept (version ≤ current) come from the last saved tree, new nodes carry at most the next version, fields are
+representable. -/
+def stepOKb (k : Int) (prev next : Option Tree) : Bool :=
+  (subtreesOpt next).all (fun s => (decide (s.version ≤ k + 1)) && (!(decide (s.version ≤ k)) || (subtreesOpt prev).contains s)) &&
+  (match next with | none => true | some t => wfb t)
+
 /-- Shape of a commit's write sequence: store batches (one store each) then `{s/<v>, s/latest}`. -/
 def commitShape (batches : List (List RawOp)) (version : Int) : Option (List Name) :=
   match batches.getLast? with
@@ -120,6 +133,11 @@ def step (st : St) (pre post : List String) : St × Verdict :=
               match blockOpt with
               | none => ({ st with shadow := shadow' }, .diff "saved tree cannot be loaded from the implementation's disk with the model loader")
               | some block =>
+                if !(block.all fun (n, tr) => match aget n m.stores with
+                      | some t => stepOKb t.version t.lastSaved tr
+                      | none => true) then
+                  ({ st with shadow := shadow' }, .diff "hypothesis StepOK (node provenance / version bound / representable fields) does not hold for the implementation's trees")
+                else
                 match commitMS H order (m.applyBlock block) with
                 | none => ({ st with shadow := shadow' }, .diff "model commit fails (SaveVersion error/panic) where the implementation succeeded")
                 | some (m', mcid, ws) =>
